@@ -3,7 +3,7 @@ import common as C
 import gen as G
 
 THEOREMS = ['range_loop_is_python_slice', 'range_is_progression', 'range_never_out_of_bounds',
-            'range_bounds_are_clamped', 'full_range_selects_everything', 'integer_index_wraps', 'out_of_range_is_error']
+            'range_bounds_are_clamped', 'full_range_selects_everything', 'integer_index_wraps', 'out_of_range_is_error', 'carry_selects_indexed_elements', 'range_slice_is_list_slice']
 RULE = ('value-first random layouts x slice tuples of length 0-4 over {integer, range (bounds in [-len-2, len+2] or None, '
         'steps +-1..3), ellipsis, newaxis, 1-d integer arrays (boolean arrays as nonzero), field, fields}, incl. '
         'out-of-range indexes; non-trivial = slice has >= 1 dimension-consuming item and the input has >= 1 non-empty '
